@@ -60,7 +60,9 @@ impl Number for i32 {
         lhs.checked_add(rhs)
     }
     fn checked_mul(lhs: Self, rhs: i32) -> Option<Self> {
-        lhs.checked_mul(rhs)
+        // TeX.2021.105 mult_integers: the result must satisfy |result| <= 2^31-1,
+        // so -2^31 is an overflow even though it fits in an i32.
+        lhs.checked_mul(rhs).filter(|r| *r != i32::MIN)
     }
     fn wrapping_mul(lhs: Self, rhs: i32) -> Self {
         lhs.wrapping_mul(rhs)
